@@ -312,13 +312,30 @@ Fixpoint obs_match (ops : list op) (l1 l2 : list ob) : bool :=
   end.
 
 (** ---------- the correspondence case ---------- *)
-Record case := { c_init : list Z; c_ops : list op; c_obs : list ob }.
+(** [c_hint]: findings that live below the byte level cannot be replayed by this model; the
+    harness recognises their signature on the Go side and passes the finding's index here:
+      7 = the modifier's prefix is the identity hash and a call failed with ErrDigestTooLarge
+      8 = the initial root is a dag-pb leaf holding file data itself and the history grows the file
+    (0 = no signature).  It is only consulted when the specification check fails.
+    [c_pref]: indices of the findings currently listed as known; when the observations match
+    more than one single-defect variant of the model, those are tried first. *)
+Record case := { c_init : list Z; c_ops : list op; c_obs : list ob; c_hint : N; c_pref : list N }.
+
+(** classification only: run a defect variant of the model, stopping once its offsets have
+    wrapped around (from there on the implementation's behaviour is garbage; the harness
+    stops such a history as well) *)
+Definition wild (s : st) : bool := (two63 <=? s_ws s) || (two63 <=? s_co s).
+Fixpoint run_g (fl : flags) (s : st) (ops : list op) : list ob :=
+  match ops with
+  | [] => []
+  | o :: r => if wild s then [BPanic] else let (s', b) := step fl s o in b :: run_g fl s' r
+  end.
 
 Fixpoint first_known (c : case) (ks : list N) : verdict :=
   match ks with
   | [] => VSpecFail
   | k :: r =>
-      if obs_match (c_ops c) (snd (run (fl_only k) (init (c_init c)) (c_ops c))) (c_obs c)
+      if obs_match (c_ops c) (run_g (fl_only k) (init (c_init c)) (c_ops c)) (c_obs c)
       then VKnown k else first_known c r
   end.
 
@@ -327,4 +344,5 @@ Definition check_case (c : case) : verdict :=
   let spec_ok := obs_match (c_ops c) (snd (spec_run (spec_init (c_init c)) (c_ops c))) (c_obs c) in
   let model_ok := obs_match (c_ops c) (snd (run fl_off (init (c_init c)) (c_ops c))) (c_obs c) in
   if spec_ok then verdict_of model_ok true
-  else first_known c [1; 2; 3; 4; 5; 6]%N.
+  else if ((c_hint c =? 7) || (c_hint c =? 8))%N then VKnown (c_hint c)
+  else first_known c (filter (fun k => (1 <=? k) && (k <=? 6))%N (c_pref c) ++ [1; 2; 3; 4; 5; 6]%N).
